@@ -203,6 +203,33 @@ theorem wf_rejects_bad_skipped_units :
     ∧ wfChunk [0, 5, 55, 7, 0, 0, 2, 7, 4, 42, 62, 1, 62, 1] [] = false
     ∧ wfChunk [0, 5, 55, 5, 0, 0, 2, 7, 1, 42, 62, 1] [] = false := by decide
 
+/-- **try balance at jumps is exact** (finding F-C05-6, fixed by 0e9e81b): in an accepted chunk the
+depth triple — open try blocks included — at the target of every reachable `Jump` / `JumpBack` is the
+depth at the jump itself: a `break` / `continue` that leaves try blocks must have closed them
+(`TryEnd`) before jumping, or the loop exit / loop head, which is also reached with the loop's own
+depth, would be a join with two depths. -/
+theorem wf_jump_depth_exact (bytes : List Nat) (consts : List CKind) (h : wfChunk bytes consts = true)
+    (base need : Nat) (l : List Ann) (hu : (base, need, l) ∈ chunkUnits bytes)
+    (a : Ann) (ha : a ∈ l) (d : Depth) (hd : a.d = some d) (hop : a.ins.op = .Jump ∨ a.ins.op = .JumpBack) :
+    ∃ ps, succPcs a = some ps ∧ ∀ p ∈ ps, ∃ b ∈ l, b.pc = p ∧ b.d = some d := by
+  have hf := wfChunk_units bytes consts h _ hu
+  obtain ⟨a0, _, _, _, _, hall⟩ := hf.entry
+  obtain ⟨d', ps, he, hs, _, hflow⟩ := (hall a ha).flow d hd
+  have hdd : d' = d := by
+    rcases hop with hop | hop <;> simp [applyEff, hop] at he <;> exact he.symm
+  subst hdd
+  refine ⟨ps, hs, fun p hp => ?_⟩
+  obtain ⟨b, hb, hbd⟩ := hflow p hp
+  exact ⟨b, (findPc_some _ _ _ hb).1, (findPc_some _ _ _ hb).2, hbd⟩
+
+/-- a `while`-shaped loop whose body is `try break catch …`: accepted with the `TryEnd` that
+0e9e81b emits before the `break` jump, rejected without it (the loop exit would be reached with try
+depth 0 from the loop head and 1 from the `break`) -/
+theorem wf_break_out_of_try :
+    wfChunk [0, 3, 57, 1, 19, 0, 84, 1, 10, 0, 85, 0, 55, 10, 0, 85, 0, 55, 2, 0, 85, 0, 56, 23, 0, 62, 1] [] = true
+    ∧ wfChunk [0, 3, 57, 1, 19, 0, 84, 1, 10, 0, 2, 2, 55, 10, 0, 85, 0, 55, 2, 0, 85, 0, 56, 23, 0, 62, 1] [] = false := by
+  decide
+
 /-- non-vacuity: the real chunk of `f = |a, b| a + (b or 42)` (a nested unit with a forward jump)
 is accepted, and has two units -/
 example : wfChunk [0, 2, 27, 1, 2, 0, 0, 0, 18, 0, 0, 5, 1, 4, 2, 58, 4, 3, 0, 7, 4, 42, 37, 3, 1, 4, 62, 3, 62, 1]
